@@ -228,3 +228,19 @@ for _pid in ("C02", "C04", "C05", "C06", "C12", "C13", "C17"):
     PROPS[_pid]["deps"] = ["C09", "C10", "C16"] if _pid in ("C04", "C05") else ["C09", "C10"]
 PROPS["C01"]["deps"] = ["C09", "C10", "C07", "C08"]
 PROPS["C16"]["deps"] = ["C09", "C10"]
+
+_proof("C12", ["EdVerif.Props.C12"], "Proved by induction over arbitrary operation histories of the API state machine (every exported operation, any aliasing, failed setters included): "
+       "every Point in every reachable store is the zero value or a valid curve point (Z != 0, curve equation, XY = ZT), every Element is inside the limb invariant, every Scalar is < l; "
+       "for valid points Equal = 1 iff encodings are identical (no degenerate value).",
+       "Lean 4 inductive invariant over the API state machine + correspondence on random histories with validity oracle")
+PROPS["C09"]["modules"] = ["EdVerif.Props.C09", "EdVerif.Props.C12"]
+PROPS["C09"]["text"] = PROPS["C09"]["text"].split(" NOT PROVED")[0] + " Closure over arbitrary API histories: C09_reachable (Props/C12.lean)."
+PROPS["C14"].update(dict(level="proof", modules=["EdVerif.Props.C14", "EdVerif.Props.Structural.ErrorPaths", "EdVerif.Props.Structural.WellFormed", "EdVerif.Props.Structural.ProvLabels"],
+    text=PROOF_TEXT + "Proved on the API model: an err/panic outcome leaves the whole store unchanged, only the fallible setters can return err, setters never change any byte-string slot; "
+         "and, re-proved each run on the SSA regenerated from /repo: on every path to a nil-returning exit there is no store to (or call passing) the receiver and no store through the input, "
+         "every other exit returns the receiver. The correspondence snapshots receiver and input (incl. spare capacity) around every failing and succeeding setter.",
+    technique="Lean 4 model theorem + Lean-checked SSA path predicate on regenerated code + correspondence"))
+PROPS["C15"].update(dict(level="proof", modules=["EdVerif.Props.C15", "EdVerif.Props.Structural.Guards", "EdVerif.Props.Structural.WellFormed", "EdVerif.Props.Structural.ProvLabels"],
+    text=PROOF_TEXT + "Proved on the API model: an uninitialized Point in any input position (each element of points included) panics with the store unchanged, mismatched lengths panic (checked first), "
+         "a zero-value receiver alone never panics, Set is exempt, and these are the only panics; re-proved each run on the regenerated SSA: the checkInitialized call / length test dominates every use of the Point parameters.",
+    technique="Lean 4 model theorem + Lean-checked SSA dominance predicate on regenerated code + correspondence"))
